@@ -435,7 +435,7 @@ def replay_pubsub(rec):
 
 
 # ------------------------------------------------------------------ C01 event list
-def eventlist_search(rounds=3000, seed=0):
+def eventlist_search(rounds=3000, seed=0, kinds=("int", "float")):
     """Random add/remove/pop/peek/contains/size/clear histories against a sorted-set reference;
     after every operation the drain order of a copy is compared as well."""
     from pydsol.core.eventlist import EventListHeap
@@ -451,7 +451,7 @@ def eventlist_search(rounds=3000, seed=0):
         ref = []          # list of events
         pool = []
         hist = []
-        timekind = rng.choice(["int", "float"])
+        timekind = rng.choice(list(kinds))
 
         def key(e):
             return (e.time, -e.priority, e.id)
@@ -462,7 +462,15 @@ def eventlist_search(rounds=3000, seed=0):
             else:
                 op = rng.choice(["add", "add", "add", "remove", "remove", "pop", "peek", "contains", "clear1"])
             if op == "add":
-                t = rng.randrange(0, 6) if timekind == "int" else float(rng.randrange(0, 6)) / 2
+                if timekind == "int":
+                    t = rng.randrange(0, 6)
+                elif timekind == "bigint":
+                    t = 2 ** 53 + rng.randrange(0, 6)         # an int clock beyond the exactly representable floats
+                elif timekind == "duration":
+                    from pydsol.core.units import Duration
+                    t = Duration(rng.randrange(0, 6) * 0.5, rng.choice(["s", "min", "ms"]))
+                else:
+                    t = float(rng.randrange(0, 6)) / 2
                 e = SimEvent(t, tgt, "m", rng.choice([1, 5, 5, 10]))
                 pool.append(e)
                 el.add(e)
@@ -516,6 +524,10 @@ def eventlist_search(rounds=3000, seed=0):
 
 @replayer(r"EventListHeap\..*|SimEvent\.__(cmp|eq|ne|lt|le|gt|ge)__")
 def replay_eventlist(rec):
+    if rec.get("obligation") == "bounded-sweep-clocks":
+        f = eventlist_search(rounds=900 * DEPTH, seed=3, kinds=("bigint", "duration", "int", "float"))
+        return {"reproduced": bool(f), "input": f, "observed": f["failure"] if f else None,
+                "note": "every history agrees with the sorted-set reference"}
     for seed in range(2):
         f = eventlist_search(seed=seed)
         if f:
@@ -587,7 +599,27 @@ def replay_updaters(rec):
         except Exception as e:
             return {"reproduced": True, "input": {"table": table, "name": name, "r": r},
                     "observed": "%s: %s" % (type(e).__name__, e)}
-    return {"reproduced": False, "note": "seed updates agree across 3 interpreter processes; table semantics hold on 300 random cases"}
+    # history independence: the seed for replication r depends on the name, the ORIGINAL seed and r only -- not on earlier
+    # updates, draws or re-seeding of the same stream object
+    for upd in (SimpleStreamUpdater(), StreamSeedUpdater({"other": [1, 2]})):
+        for name, seed in (("default", 10), ("arrivals", 7)):
+            for r in (0, 1, 4):
+                fresh = MersenneTwister(seed)
+                upd.update_seed(name, fresh, r)
+                want = (fresh.seed(), fresh.next_float())
+                for prior in ([1], [0, 1, 2], [3, 0]):
+                    used = MersenneTwister(seed)
+                    for r0 in prior:
+                        upd.update_seed(name, used, r0)
+                        used.next_float()
+                    upd.update_seed(name, used, r)
+                    got = (used.seed(), used.next_float())
+                    if got != want:
+                        return {"reproduced": True, "input": {"updater": type(upd).__name__, "stream": name, "original_seed": seed,
+                                                              "earlier_replications": prior, "replication_nr": r},
+                                "observed": "seed/first draw %s after earlier updates, %s on a fresh stream" % (got, want)}
+    return {"reproduced": False, "note": "seed updates agree across 3 interpreter processes; table semantics hold on 300 random cases; "
+                                         "independent of earlier updates of the same stream"}
 
 
 # ------------------------------------------------------------------ C18 input parameters
@@ -644,6 +676,37 @@ def parameters_search(rounds=1500, seed=0):
                 return {"class": kind, "read_only": ro, "attempts": hist, "failure": "value %r after attempt, expected %r" % (p.value, cur)}
             if p.default_value is not default and p.default_value != default:
                 return {"class": kind, "attempts": hist, "failure": "default value changed"}
+        # quantity parameters: bounds are on the SI value, whatever unit the value is entered in
+        if r % 4 == 0:
+            from pydsol.core.parameters import InputParameterQuantity
+            from pydsol.core.units import Length, Duration, Mass
+            qcls, units, lo, hi = rng.choice([(Length, ["m", "cm", "km", "mm"], 1.0, 100.0), (Duration, ["s", "min", "ms", "h"], 10.0, 600.0)])
+            ro = rng.random() < 0.2
+            qp = InputParameterQuantity("q", "q", qcls(50.0, units[0]), 1.0, read_only=ro, min_si=lo, max_si=hi)
+            cur = qp.value
+            qhist = []
+            for _ in range(rng.randrange(1, 6)):
+                if rng.random() < 0.15:
+                    v = rng.choice([Mass(50.0), 50.0, "50 m", None])
+                else:
+                    v = qcls(rng.choice([0.05, 0.5, 1.0, 5.0, 20.0, 50.0, 100.0, 300.0, 2000.0]), rng.choice(units))
+                qhist.append(repr(v))
+                try:
+                    qp.set_value(v)
+                    accepted = True
+                except (TypeError, ValueError):
+                    accepted = False
+                except Exception as e:
+                    return {"class": "quantity", "attempts": qhist, "failure": "%s: %s" % (type(e).__name__, e)}
+                exp = (not ro) and isinstance(v, qcls) and lo <= v.si <= hi
+                if accepted != exp:
+                    return {"class": "quantity", "type": qcls.__name__, "bounds_si": [lo, hi], "read_only": ro, "attempts": qhist,
+                            "failure": "set_value(%r) (SI value %r) %s; bounds %r..%r on the SI value say %s"
+                                       % (v, getattr(v, "si", None), "accepted" if accepted else "refused", lo, hi, "accept" if exp else "refuse")}
+                if accepted:
+                    cur = v
+                if qp.value is not cur:
+                    return {"class": "quantity", "attempts": qhist, "failure": "value %r after the attempt, expected %r" % (qp.value, cur)}
         # model level: set through the model then get
         m = M(sim)
         kinds = [rng.choice(["int", "float", "str", "bool", "sel"]) for _ in range(rng.randrange(1, 5))]
@@ -1470,6 +1533,7 @@ def reinit_search(rounds=40, seed=0, witness=None):
         if prog["own_producer"]:
             prog["persistent"] = False
         history = rng.choice(["fresh", "initialized", "steps", "paused", "ended", "fault"])
+        cleanup_between = rng.random() < 0.3        # an explicit cleanup() before the simulator is initialised again
         if witness is not None:
             prog.update(witness["program"])
             history = witness["history"]
@@ -1514,6 +1578,9 @@ def reinit_search(rounds=40, seed=0, witness=None):
                         prog["arm"][0] = False
                         sim.set_error_strategy(ErrorStrategy.WARN_AND_CONTINUE, 100)
                         detail = "paused by a failing handler" if sim.run_state != RunState.ENDED else "ended (no armed failure hit)"
+                    if cleanup_between and witness is None:
+                        sim.cleanup()
+                        detail += ", then cleanup()"
                     sim.initialize(m, prog["repl"]())
                 else:
                     sim.initialize(m, prog["repl"]())
@@ -1654,11 +1721,17 @@ def lifecycle_search(rounds=60, seed=0):
         try:
             with contextlib.redirect_stdout(out), contextlib.redirect_stderr(out):
                 cmds = ["initialize"] + [rng.choice(["start", "step", "step", "run_up_to", "run_up_to_including", "end_replication",
-                                                     "stop", "initialize"]) for _ in range(rng.randrange(2, 8))]
+                                                     "stop", "initialize", "cleanup"]) for _ in range(rng.randrange(2, 8))]
                 for c in cmds:
                     arg = rng.choice([0.5, 2.0, 3.5, 5.0, 10.0, 12.0, -1.0]) if c.startswith("run_up_to") else None
                     ended = sim.replication_state in (ReplicationState.ENDED, ReplicationState.ENDING)
                     if c == "end_replication" and (ended or sim.run_state == RunState.NOT_INITIALIZED):
+                        continue
+                    if c == "cleanup":
+                        log.append((c, None))
+                        sim.cleanup()       # the next command that can take effect is initialize (new replication, new listener)
+                        if sim.run_state != RunState.NOT_INITIALIZED:
+                            return {"events": times, "commands": log, "failure": "run state %s after cleanup()" % sim.run_state}
                         continue
                     before = (sim.run_state, sim.replication_state, sim.simulator_time, sim.eventlist().size(), len(rec.got) if rec else 0)
                     log.append((c, arg))
